@@ -1451,7 +1451,8 @@ def run(ctx, only=None):
     if want("abort"):
         pool = upto(4) + [(1, 4, 2, 0, 3), (1, 2, 4, 0, 3)]
         if not quick:
-            pool += upto(5) + X.simples(6)[:4] + X.simples(7)[:2]
+            pool += X.simples(5) + [(0, 1, 2, 3, 4), (4, 3, 2, 1, 0), (2, 0, 1, 4, 3)] + \
+                X.simples(6)[:4] + X.simples(7)[:2]
         pool = sorted(set(pool), key=lambda p: (len(p), p))
         shards = [("op", p, op) for p in pool for op in ABORT_OPS]
         alphabet = [None, (), (1, 0), (0, 2, 1)]
@@ -1461,10 +1462,9 @@ def run(ctx, only=None):
         ctx.pmap(shard_abort, shards)
         ctx.bounds["abort"] = {
             "operations": sorted(ABORT_OPS) + ["inflate"],
-            "perms": "every perm of length <= %d and %d longer ones (length <= %d); on a new "
-                     "object and on the memoised Perm.to_standard object" % (
-                         4 if quick else 5, sum(1 for p in pool if len(p) > (4 if quick else 5)),
-                         max(len(p) for p in pool)),
+            "perms": "every perm of length <= 4 and %d longer ones %r; on a new object and on the "
+                     "memoised Perm.to_standard object" % (
+                         sum(1 for p in pool if len(p) > 4), [p for p in pool if len(p) > 4]),
             "inflate": "skeletons %s, every component list over %r" % (
                 "S<=3" if quick else "S<=3, 2413, 0123", alphabet),
             "state": "module / class bindings and containers of %s, lru_caches and mutable default "
